@@ -165,7 +165,7 @@ def render(body, name='f'):
 
 
 HANDLER_KINDS = ['E%d', 'Exception', '(E0, E1)', 'BaseException', 'KeyError', 'E%d', None]   # None: bare `except:` (last clause only)
-RAISE_KINDS = ['raise E(a)', 'raise E(a)', 'raise E0(a)', 'raise E(a)', 'raise KeyboardInterrupt']
+RAISE_KINDS = ['raise E(a)', 'raise E(a)', 'raise E0(a)', 'raise E(a)', 'raise BX(a)']
 
 
 def _block(stmts, ind, lines, ctx):
@@ -334,7 +334,7 @@ def raise_handler_family():
                               class + bare
       place                   the explicit raise sits in the inner body / the inner `else` block / the first inner handler
       raised                  the generic `raise E(a)` (the decision vector picks the class, among them a class that is
-                              not an `Exception`), `raise KeyboardInterrupt`, `raise E0(a)`, `raise E1`
+                              not an `Exception`), `raise BX(a)` (a `BaseException` that is not an `Exception`), `raise E0(a)`, `raise E1`
       after                   a statement follows the inner try inside the outer body
       ifin                    the inner try has a `finally` block
     so that which handler of which try an explicit raise reaches depends on Python's matching rule.  The raise is
@@ -342,7 +342,7 @@ def raise_handler_family():
     S = ('S',)
     CL = [['except:'], ['except Exception:'], ['except BaseException:'], ['except E0:'], ['except (E0, E1):'],
           ['except E0:', 'except Exception:'], ['except E1:', 'except:']]
-    RS = ['raise E(a)', 'raise KeyboardInterrupt', 'raise E0(a)', 'raise E1']
+    RS = ['raise E(a)', 'raise BX(a)', 'raise E0(a)', 'raise E1']
     out = []
     for icl in CL:
         for ocl in CL:
